@@ -66,10 +66,11 @@ type Cfg struct {
 	Flush     time.Duration `json:"flush"`
 	Limit413  int           `json:"limit_413"` // >0: the endpoint answers 413 to bodies larger than this
 	Retry     int           `json:"retry"`
-	Copy      bool          `json:"copy_fields,omitempty"` // splunk: copy svc to fields.svc of the envelope
-	Reconnect time.Duration `json:"reconnect,omitempty"`   // gelf: reconnect_interval
-	Retention time.Duration `json:"retention,omitempty"`   // file: retention_interval (the file is sealed and a new one started)
-	DLQ       bool          `json:"dead_queue,omitempty"`  // a dead-queue output is configured: a given-up batch is observable there
+	Copy      bool          `json:"copy_fields,omitempty"`  // splunk: copy svc to fields.svc of the envelope
+	Reconnect time.Duration `json:"reconnect,omitempty"`    // gelf: reconnect_interval
+	Retention time.Duration `json:"retention,omitempty"`    // file: retention_interval (the file is sealed and a new one started)
+	DLQ       bool          `json:"dead_queue,omitempty"`   // a dead-queue output is configured: a given-up batch is observable there
+	Raw       bool          `json:"raw_encoding,omitempty"` // http: encoding raw, field f0 (one JSON value per line; an event without f0 has nothing to send)
 	Events    []Ev          `json:"events"`
 }
 
@@ -118,6 +119,7 @@ func (h *H) Gen(rng *rand.Rand, tier, prop string) core.Cfg {
 		}
 	}
 	c.Sim.QuietAt = 20 * time.Second
+	c.Raw = c.Sink == "http" && core.Chance(rng, 0.35)
 	c.DLQ = c.Sink != "file" && core.Chance(rng, 0.5)
 	if prop == "C09" {
 		// the retry/dead-queue routing of the real outputs: a dead queue makes a give-up observable
@@ -178,6 +180,9 @@ func (h *H) Gen(rng *rand.Rand, tier, prop string) core.Cfg {
 			if e.Pause > 500*time.Millisecond {
 				e.Pause = 500 * time.Millisecond
 			}
+		}
+		if c.Raw && len(e.Fields) > 0 {
+			e.Fields[0] = fmt.Sprintf("m%d ", e.ID) + e.Fields[0] // the raw line carries nothing but this value: it must name its event
 		}
 		c.Events = append(c.Events, e)
 	}
@@ -535,6 +540,39 @@ func (r *run) endpoint(c *simfasthttp.Call) simfasthttp.Reply {
 		if len(lines) > 0 && len(lines[len(lines)-1]) == 0 {
 			lines = lines[:len(lines)-1]
 		}
+		if cfg.Raw {
+			// one line per event of the batch: the JSON value of its f0 field, or an empty line for an event without one
+			for i, ln := range lines {
+				if len(ln) == 0 {
+					continue
+				}
+				doc, err := norm(ln)
+				if err != nil {
+					r.viol("document-not-json", "%s: line #%d is not valid JSON (%v): %q", where, i, err, ln)
+					continue
+				}
+				str, isStr := doc.(string)
+				var id int
+				if n, _ := fmt.Sscanf(str, "m%d ", &id); !isStr || n != 1 {
+					r.viol("unknown-document", "%s: line #%d is not the message of any event: %q", where, i, ln)
+					continue
+				}
+				e, known := r.byID[id]
+				if !known || len(e.Fields) == 0 {
+					r.viol("unknown-document", "%s: line #%d names event %d, which has no message", where, i, id)
+					continue
+				}
+				if e.Parent {
+					r.viol("split-parent-in-payload", "%s: the parent event of a split (id %d) appears in the payload", where, id)
+				}
+				if want, _ := norm([]byte(rawJSONString(e.Fields[0]))); want != doc {
+					r.viol("document-altered", "%s: line #%d is %q, the message of event %d is %q", where, i, str, id, want)
+				}
+				r.deliv[id] = append(r.deliv[id], delivery{id: id, request: req, ok: ok, pos: i})
+				ids = append(ids, id)
+			}
+			break
+		}
 		for i, ln := range lines {
 			doc, err := norm(ln)
 			if err != nil {
@@ -833,7 +871,11 @@ func (h *H) Run(cc core.Cfg, sim *simrt.Sim) *core.Outcome {
 		case "es":
 			js = fmt.Sprintf(`{"endpoints":["http://es:9200"],"index_format":"logs-%%","index_values":["svc"],"split_batch":%v,"connection_timeout":"1s",%s%s}`, cfg.Split, common, gz)
 		case "http":
-			js = fmt.Sprintf(`{"endpoints":["http://sink:8080/in"],"split_batch":%v,"connection_timeout":"1s",%s%s}`, cfg.Split, common, gz)
+			enc := ""
+			if cfg.Raw {
+				enc = `,"encoding":{"type":"raw","params":{"field":"f0"}}`
+			}
+			js = fmt.Sprintf(`{"endpoints":["http://sink:8080/in"],"split_batch":%v,"connection_timeout":"1s",%s%s%s}`, cfg.Split, common, gz, enc)
 		case "splunk":
 			cp := ""
 			if cfg.Copy {
@@ -929,6 +971,9 @@ func (h *H) Run(cc core.Cfg, sim *simrt.Sim) *core.Outcome {
 		case r.commits[e.ID] == 0:
 			r.viol("event-never-committed", "event id %d was never committed by the output (requests %d)", e.ID, r.requests)
 		case okCount == 0:
+			if cfg.Raw && len(e.Fields) == 0 {
+				continue // raw encoding: an event without the message field has nothing to send
+			}
 			if r.tooLarge[e.ID] {
 				continue // cannot be delivered on its own: the documented drop
 			}
